@@ -20,8 +20,8 @@ class C19(Prop):
   rule = ("Hypothesis-generated histories on a decorated chart hosted on an instrumented "
           "HsmWithQueues: handlers post_fifo/post_lifo/defer/recall/scribble and query the chart (is_in, "
           "current_state) from their clauses; "
-          "operations post/defer/recall/next_rtc/complete_circuit (next_rtc only counted as a step "
-          "when the model queue is non-empty); one history in eight is long (255-350 queued events) "
+          "operations post/defer/recall/next_rtc/complete_circuit (a next_rtc on an empty queue logs the queue "
+          "reflection alone); one history in eight is long (255-350 queued events) "
           "so the 500-line ring wraps. Oracle built from the handlers' OWN invocation stream: each "
           "step's spy_rtc() equals one 'SIGNAL:state' line per invocation the processor made (offers, "
           "EMPTY_SIGNAL guard fallbacks, SEARCH_FOR_SUPER probes, entry, exit, init) in order, a "
@@ -33,7 +33,7 @@ class C19(Prop):
   assumptions = [
     "markers of posts made from OUTSIDE a step are not required to appear (the statement covers "
     "posts and recalls made during the step)",
-    "a next_rtc/complete_circuit on an empty queue is not a step and is not generated",
+    "a next_rtc on an empty queue dispatches nothing: its step log is the queue reflection line alone (a complete_circuit on an empty queue does nothing)",
     "histories whose handler actions run in another order than the model predicts are "
     "excluded (C01 domain)",
   ]
@@ -66,7 +66,7 @@ class C19(Prop):
             for s in steps:
               hook = any(l.endswith(":HOOK") for l in s)
               fb = any(l.startswith("EMPTY_SIGNAL:") for l in s)
-              mark = any(l.startswith(("POST_", "RECALL:", "note")) for l in s)
+              mark = any(l.startswith(("POST_", "RECALL:")) or "note" in l for l in s)
               if hook:
                 classes.append("step_with_hook")
               if fb:
